@@ -120,3 +120,15 @@ Definition enc_psk_modes (l : list Z) : option bytes := enc_uint_vec 1 1 255 l.
 Definition enc_record_size_limit (n : Z) : bytes := enc_uint 2 n.
 (* RFC 5746: opaque renegotiated_connection<0..255> *)
 Definition enc_renegotiation_info (d : bytes) : option bytes := enc_opaque 0 255 d.
+
+(* SSL 2.0 (draft-hickman-netscape-ssl-00) hello messages, without the message-type byte that the record carries.
+   CLIENT-HELLO: version (2), cipher-specs length (2), session-id length (2), challenge length (2), cipher specs (3 bytes
+   each), session id, challenge.
+   SERVER-HELLO: session-id-hit (1), certificate type (1), version (2), certificate length (2), cipher-specs length (2),
+   connection-id length (2), certificate, cipher specs, connection id. *)
+Definition enc_ssl2_client_hello (version : Z) (ciphers : list Z) (session_id challenge : bytes) : bytes :=
+  enc_uint 2 version ++ enc_uint 2 (3 * zlen ciphers) ++ enc_uint 2 (zlen session_id) ++ enc_uint 2 (zlen challenge)
+  ++ concat (map (enc_uint 3) ciphers) ++ session_id ++ challenge.
+Definition enc_ssl2_server_hello (hit cert_type version : Z) (certificate : bytes) (ciphers : list Z) (connection_id : bytes) : bytes :=
+  enc_uint 1 hit ++ enc_uint 1 cert_type ++ enc_uint 2 version ++ enc_uint 2 (zlen certificate) ++ enc_uint 2 (3 * zlen ciphers)
+  ++ enc_uint 2 (zlen connection_id) ++ certificate ++ concat (map (enc_uint 3) ciphers) ++ connection_id.
